@@ -232,6 +232,33 @@ func c15One(c *vf.Ctx, sub string, i int, r *rand.Rand, ids []Ident) {
 	} else if !announced {
 		<-syncDone // "none": Close after the sync completed
 	}
+	// a second explicit sync of the same publisher, queued behind the running (gated) one when Close starts
+	queuedDone := make(chan struct{})
+	queuedKind := ""
+	if !announced && point != "none" && r.Intn(3) == 0 {
+		queuedKind = []string{"SyncAdChain", "SyncAdChain-given-head", "SyncEntries", "SyncOneEntry", "SyncHAMTEntries"}[r.Intn(5)]
+		go func() {
+			defer close(queuedDone)
+			tl.mark("client.explicit.call", id.ID, cid.Undef)
+			switch queuedKind {
+			case "SyncEntries":
+				_ = s.SyncEntries(context.Background(), front.AddrInfo(), entChain.Head())
+			case "SyncOneEntry":
+				_ = s.SyncOneEntry(context.Background(), front.AddrInfo(), entChain.Head())
+			case "SyncHAMTEntries":
+				_ = s.SyncHAMTEntries(context.Background(), front.AddrInfo(), entChain.Head())
+			case "SyncAdChain-given-head":
+				_, _ = s.SyncAdChain(context.Background(), front.AddrInfo(), dagsync.WithHeadAdCid(chain.Head()), dagsync.WithAdsResync(true))
+			default:
+				_, _ = s.SyncAdChain(context.Background(), front.AddrInfo())
+			}
+			tl.mark("client.explicit.ret", id.ID, cid.Undef)
+		}()
+		time.Sleep(time.Duration(300+r.Intn(1200)) * time.Microsecond) // it gets as far as the publisher's lock (or not: both are fine)
+		c.Inc("close_with_second_explicit_sync_queued")
+	} else {
+		close(queuedDone)
+	}
 	// with a concurrency limit of 1 and the gated announce-triggered sync holding the slot, park another
 	// publisher's handling goroutine on the semaphore before Close starts
 	holdsSlot := map[string]bool{"pending.taken": true, "sync.enter": true, "front": true, "sync.exit": true, "event.emit.begin": true}
@@ -308,6 +335,11 @@ func c15One(c *vf.Ctx, sub string, i int, r *rand.Rand, ids []Ident) {
 	if hung {
 		return
 	}
+	if qv, qd := vf.Watch(60*time.Second, func() { <-queuedDone }); qv != vf.Returned {
+		c15Hangs.Add(1)
+		c.Inconclusive(sub, i, "queued-explicit-sync-did-not-return", qd, wit())
+		return
+	}
 	tc := firstCloseRet.Load()
 	// ---- after Close returned --------------------------------------------------------------------------
 	// (a) syncs that were running ended before Close returned
@@ -315,15 +347,15 @@ func c15One(c *vf.Ctx, sub string, i int, r *rand.Rand, ids []Ident) {
 	// inside the library: a tap event of the explicit sync's goroutine after Close returned)
 	_ = syncRet
 	if !announced && syncCall != 0 && syncCall < closeCall {
-		syncG := -1
+		syncG := map[int]bool{}
 		for _, e := range tl.events() {
-			if e.Point == "client.explicit.call" {
-				syncG = e.G
+			if e.Point == "client.explicit.call" && e.T < closeCall {
+				syncG[e.G] = true
 			}
 		}
 		for _, e := range tl.events() {
-			if e.G == syncG && e.T > tc && !strings.HasPrefix(e.Point, "client.") {
-				c.Fail(sub, i, "close-returned-while-explicit-sync-running", fmt.Sprintf("the explicit sync was at %s (tick %d) after Close had returned (tick %d)", e.Point, e.T, tc), wit())
+			if syncG[e.G] && e.T > tc && !strings.HasPrefix(e.Point, "client.") {
+				c.Fail(sub, i, "close-returned-while-explicit-sync-running", fmt.Sprintf("an explicit sync was at %s (tick %d) after Close had returned (tick %d)", e.Point, e.T, tc), wit())
 				break
 			}
 		}
